@@ -42,3 +42,19 @@ Check (eq_refl : relevant = fun c =>
     ++ (if has_base c then map (fun i => (i, J_BASE)) [1; 2; 3; 4; 5]%Z else [])
     ++ (if has_tool c && has_base c then [(J_TOOL, J_BASE)] else [])).
 Check (eq_refl : (NEVER_COLLIDES, TOUCH_ONLY, IDX_J_TOOL, IDX_J_BASE, IDX_ENV_START_IDX) = (- 1, 0, J_TOOL, J_BASE, ENV_START)).
+
+(** ** why the enlarged-box pre-filter is sound (design-level theorem, geometry over R in the frame of the smaller shape):
+    if a point of the smaller shape (inside its bounding box) and a point of a triangle of the larger shape are within r of
+    each other, then a vertex of that triangle lies in the box loosened by r, or the triangle shares a point with the surface
+    of the loosened box - the two tests of CollisionTask::collides.  parry3d contracts assumed: a shape lies inside its
+    local_aabb; intersection_test of two meshes is true when their surfaces share a point; contains_local_point is the
+    closed box.  On every run the pre-filter is also TESTED (the executable model uses the exact distance). *)
+From Coq Require Import Reals.
+From VF Require Import Base.Lin Proofs.PrefilterP.
+Open Scope R_scope.
+Theorem C10_prefilter_design : forall lo hi (r : R) (a b v1 v2 v3 : V3),
+  in_box lo hi a -> in_triangle v1 v2 v3 b -> vnorm (vsub a b) <= r ->
+  let L := loosen lo hi r in
+  (in_box (fst L) (snd L) v1 \/ in_box (fst L) (snd L) v2 \/ in_box (fst L) (snd L) v3) \/
+  (exists x, in_triangle v1 v2 v3 x /\ on_box_surface (fst L) (snd L) x).
+Proof. exact prefilter_design. Qed.
